@@ -34,6 +34,7 @@ func persistedFields(n *types.Named) (persisted map[string]bool, all []string) {
 }
 
 func checkC15(p *Program, r *Reporter) {
+	errDiscByName(p, r, pkgApp, "(*assetMgr).discoverAssets", "(*assetMgr).loadAsset")
 	r.Explanation = "Static analysis of structural necessary conditions of C15: (a) persisted-or-rederived: every field of the representation/segment records that request-serving code reads is either written to and read from the metadata file by encoding/json (exported, tag not '-') or stored by the step that the cache-load path runs after decoding; " +
 		"(b) publication after validation: a representation is entered into the served table only after the loader's error test, the zero-segment test and the audio sample-duration test; the MPD is entered last (no error exit reachable afterwards); an asset whose consolidation fails is deleted from the served table; " +
 		"(c) admission: the loop-duration integrality test and the equal-duration test end in an error, and the equal-duration test is applied to every representation of the reference content type, not only to pre-encrypted ones; " +
